@@ -153,6 +153,7 @@ def rules_for(pid):
         ],
         "C19": [
             ("A19a", lambda c: RJ.a19a(c.P, c.E), 2),
+            ("A19b", lambda c: RJ.a19b(c.P, c.E), 4),
             ("F-atomic-take", lambda c: RO.f_atomic_take(c.P, c.E), 3),
         ],
         "C14": [
@@ -237,9 +238,12 @@ EXPLANATION = {
            "first post on every path, or every posted task aborts on every path); Q7 threads are spawned only by "
            "NewThreadScheduler::new, once; Q8 the worker leaves its loop iff aborted (sticky); S-finalize-shape: "
            "on_finalize runs at every end; L4 task loops poll.  The `within one period` bound is NOT decided.",
-    "C19": "A19a only: each terminal kind is invoked solely through the atomic take (F-atomic-take: test+clear under one "
-           "write guard), so at most one error and at most one complete callback under any interleaving.  Cross-kind "
-           "exclusion between the delivery gate and the terminal transition (A19b) is NOT armed: see DESIGN.md.",
+    "C19": "A19a: each terminal kind is invoked solely through the atomic take (F-atomic-take: test+clear under one write "
+           "guard) => at most one error and at most one complete callback under any interleaving.  A19b: both terminal "
+           "methods deliver only on the true edge of ONE common test-and-set (a bool cell read and set under a single write "
+           "guard; verified by interpreting the arbiter's MIR over the flag) => at most one terminal of either kind; the "
+           "winner clears the next slot before invoking the terminal callback => nothing is delivered once that callback "
+           "has returned (S-gate + Observer::next's own gate cover emissions that start later).",
     "C14": "The closure given to Observable::create is Fn+Send+Sync, so state that survives one subscription "
            "must sit behind interior mutability in a captured value; every capture of every SOURCE closure of "
            "a cold constructor is classified by the interior-mutable leaves of its type (K-fresh-state); "
